@@ -5,6 +5,8 @@ import CogentModel.Spec.FeatureView
 import CogentModel.Proofs.ViewInv
 import CogentModel.Proofs.FeatureView
 import CogentModel.Proofs.FeatureOnView
+import CogentModel.Proofs.FeatureStrided
+import CogentModel.Proofs.FeatureCopy
 import CogentModel.Model.FeatureProject
 import CogentModel.Proofs.FeatureProject
 import CogentModel.Proofs.FeatureHistory
@@ -311,6 +313,114 @@ theorem query_window_swapped (v : View) (a b : Int) (ha : 0 < a) (hab : a < b) :
   simp only [queryWindow, orDefault, if_neg h1, if_neg h2, if_neg h3, if_neg h4, if_neg h5, if_pos hab]
 
 example : queryWindow { start := -3, stop := -9, step := -1, offset := 5, seqLen := 10 } (some 4) (some 1) = .ok (9, 12) := by
+  decide
+
+/-! ## Strided views (`|step| > 1`)
+
+What `get_features` does there: every db coordinate `c` becomes `ceil((c - p0)/k)` (`relative_position`
+rounds up), so a span `[s, e)` becomes the range of view indices `i` with `s ≤ p0 + i·k < e` — exactly
+the SHOWN positions that lie in the span.  So on a strided view a feature denotes the shown residues
+inside its spans, read on the feature's strand; never an exception. -/
+
+/-- Forward views of ANY stride `k ≥ 1` (no further invariant needed). -/
+theorem feature_on_strided_forward_view (v : View) (hk : 0 < v.step) (hl : 0 < len v) (minus : Bool)
+    (spans : List (Int × Int)) (hsp : ∀ sp ∈ spans, 0 ≤ sp.1 ∧ sp.1 < sp.2)
+    (hsorted : spans.Pairwise (fun a b => a.1 ≤ b.1)) :
+    ∃ f, featureOnView v minus spans = .ok f ∧
+      slicePositionsAny v f = denoteShown (shownFwd (v.offset + v.start) v.step (len v)) spans minus :=
+  featureOnStridedFwd_spec v hk hl minus spans hsp hsorted
+
+-- parent[2:11:3] at offset 5 shows absolute 7, 10, 13; feature (6,8),(9,14) on the minus strand
+example :
+    (match featureOnView { start := 2, stop := 11, step := 3, offset := 5, seqLen := 12 } true [(6, 8), (9, 14)] with
+      | .ok f => slicePositionsAny { start := 2, stop := 11, step := 3, offset := 5, seqLen := 12 } f == ([13, 10, 7], true)
+      | .error _ => false) = true ∧
+    denoteShown (shownFwd 7 3 3) [(6, 8), (9, 14)] true = ([13, 10, 7], true) := by
+  decide
+
+/-- Reversed views of any stride (`step = -k`, e.g. `rc` of a strided view): `shownRev v` are the shown
+positions in plus-strand order. -/
+theorem feature_on_strided_reversed_view (v : View) (hk : v.step < 0) (hl : 0 < len v) (minus : Bool)
+    (spans : List (Int × Int)) (hsp : ∀ sp ∈ spans, 0 ≤ sp.1 ∧ sp.1 < sp.2)
+    (hsorted : spans.Pairwise (fun a b => a.1 ≤ b.1)) :
+    ∃ f, featureOnView v minus spans = .ok f ∧
+      slicePositionsAny v f = denoteShown (shownRev v) spans minus :=
+  featureOnStridedRev_spec v hk hl minus spans hsp hsorted
+
+-- the same three positions shown by the reversed view (start -2, stop -11, step -3 on a 12-mer at offset 5)
+example :
+    shownRev { start := -2, stop := -11, step := -3, offset := 5, seqLen := 12 } = [9, 12, 15] ∧
+    (match featureOnView { start := -2, stop := -11, step := -3, offset := 5, seqLen := 12 } false [(6, 10), (11, 14)] with
+      | .ok f => slicePositionsAny { start := -2, stop := -11, step := -3, offset := 5, seqLen := 12 } f == ([9, 12], false)
+      | .error _ => false) = true := by
+  decide
+
+/-! ## copy / deepcopy, degapping, and the new-style `_mapped` path -/
+
+/-- `Sequence.copy()` (sliced: the view is re-created over the truncated parent with
+`annotation_offset = parent_start`) keeps unit stride, orientation, the retained segment — and hence the
+positions EVERY feature denotes.  `copy(sliced=False)` and `copy.deepcopy` keep the slice record itself, so
+for them this is `feature_positions_on_view` on the same record. -/
+theorem copy_preserves_features (v : View) (h : UnitView v) (hl : 0 < len v) (minus : Bool)
+    (spans : List (Int × Int)) (hsp : ∀ sp ∈ spans, 0 ≤ sp.1 ∧ sp.1 < sp.2)
+    (hsorted : spans.Pairwise (fun a b => a.1 ≤ b.1)) :
+    ∃ w f f', copyView v = .ok w ∧ UnitView w ∧ segStart w = segStart v ∧ len w = len v ∧ w.step = v.step ∧
+      featureOnView v minus spans = .ok f ∧ featureOnView w minus spans = .ok f' ∧
+      slicePositions w f' = slicePositions v f := by
+  obtain ⟨w, hw, hu, hseg, hlw, hst⟩ := copyView_spec v h hl
+  obtain ⟨w', f, f', hw', hf, hf', hp⟩ := copy_positions v h hl minus spans hsp hsorted
+  rw [hw] at hw'
+  cases hw'
+  exact ⟨w, f, f', hw, hu, hseg, hlw, hst, hf, hf', hp⟩
+
+example : copyView { start := -3, stop := -8, step := -1, offset := 5, seqLen := 8 }
+    = .ok { start := -1, stop := -6, step := -1, offset := 6, seqLen := 5 } := by decide
+
+/-- **Degapping the own-row slice of an alignment feature.**  Reading the aligned row `A` at the columns of
+the projected feature (`readRow`: the sequence position shown in a column, nothing for a gap) gives back
+exactly the positions of the sequence feature, in order, lost parts staying lost: the degapped own-row slice
+of `aln.get_features(seqid=…)` is the sequence feature's residues.  (`Sequence.degap()` on a plain sequence
+is a different operation and is NOT correct: open finding C04-degap-detaches-the-sequence-from-its-annotations.) -/
+theorem degapped_own_row_denotes (A fm : FMap.FM) (hA : FMap.SortedFwd A) (hpl : 0 < A.parentLength)
+    (hfm : ∀ x ∈ fm.spans, x.idxIn A.parentLength)
+    (hcov : ∀ (j : Nat) (p : Int), (FMap.cover fm)[j]? = some (some p) → ∃ k : Nat, (FMap.cover A)[k]? = some (some p)) :
+    ∃ r, FMap.project A fm = .ok r ∧ (FMap.cover r).map (FMap.readRow A) = FMap.cover fm :=
+  FMap.project_readback A fm hA hpl hfm hcov
+
+example :
+    let A : FMap.FM := ⟨[.span 0 2 false, .lost 2, .span 2 4 false, .lost 1, .span 4 5 false], 5⟩
+    let fm : FMap.FM := ⟨[.span 4 5 true, .span 1 3 true], 5⟩
+    ((FMap.project A fm).toOption.map fun r => (FMap.cover r).map (FMap.readRow A)) = some (FMap.cover fm) := by
+  decide
+
+/-- **New-style `_mapped`.**  `get_slice()` on a new-style sequence raises `ValueError('cannot set offset …')`
+exactly when the retained part of the feature is ONE span that does not start at view index 0 and the view
+carries an offset (open finding C04-new-sequence-feature-slice-offset-guard); in every other case it
+returns the residues of `getSlice`, i.e. those of `feature_on_view`. -/
+theorem new_mapped_guard_exact (comp : Char → Char) (s : Seq) (f : Feat) :
+    (getSliceNew comp s f = .error .valueError ↔
+      ∃ a b, realOf f.spans = [(a, b)] ∧ a ≠ 0 ∧ s.v.offset ≠ 0) ∧
+    ((¬ ∃ a b, realOf f.spans = [(a, b)] ∧ a ≠ 0 ∧ s.v.offset ≠ 0) →
+      getSliceNew comp s f = .ok (getSlice comp s f)) :=
+  getSliceNew_spec comp s f
+
+/-- … in particular a new-style sequence WITHOUT offset behaves as `feature_on_view` says. -/
+theorem feature_on_new_style_view_without_offset (comp : Char → Char) (hcomp : ∀ x, comp (comp x) = x) (s : Seq)
+    (hw : WF s) (hn : s.nucleic = true) (hu : UnitView s.v) (hl : 0 < len s.v) (hoff : s.v.offset = 0)
+    (minus : Bool) (spans : List (Int × Int)) (hsp : ∀ sp ∈ spans, 0 ≤ sp.1 ∧ sp.1 < sp.2)
+    (hsorted : spans.Pairwise (fun a b => a.1 ≤ b.1)) :
+    ∃ f, featureOnView s.v minus spans = .ok f ∧
+      getSliceNew comp s f = .ok ((denote spans minus (segStart s.v) (segStart s.v + len s.v)).1.map
+          (fun p => (if minus then comp else id) (s.parent[(p - s.v.offset).toNat]!))) := by
+  obtain ⟨f, hf, hs⟩ := getSlice_spec comp hcomp s hw hn hu hl minus spans hsp hsorted
+  refine ⟨f, hf, ?_⟩
+  rw [(getSliceNew_spec comp s f).2 (by rintro ⟨a, b, _, _, h3⟩; exact h3 hoff), hs]
+
+example :
+    let s : Seq := { parent := "ACGTACGTAC".toList, v := { start := 0, stop := 10, step := 1, offset := 3, seqLen := 10 }, nucleic := true }
+    (match featureOnView s.v false [(5, 8)] with
+      | .ok f => getSliceNew id s f == .error .valueError
+      | .error _ => false) = true := by
   decide
 
 end CogentModel.C04
